@@ -51,9 +51,13 @@ def body(run):
                 kw['max_block_mem'] = desc['max_block_mem'] = mbm * 8
                 base = fz.fuse(pair['src_fn'], pair['ref_fn'], run.work / 'base.tif', **kw)
         except Exception as ex:
+            if type(ex).__name__ not in ('BlockSizeError', 'ImageContentError'):
+                raise
             dist['base-error:' + type(ex).__name__] = dist.get('base-error:' + type(ex).__name__, 0) + 1
             continue
-        for which, fac in [('src', 4.0), ('ref', 8.0), ('src', 0.125)]:
+        # (small and large radiometric scales matter: reflectance in 0..1 against DN in 0..10000 - an absolute epsilon or threshold anywhere in the
+        # fit shows only there; powers of two keep every float32 operation exact, so the comparison stays bit for bit)
+        for which, fac in [('src', 4.0), ('ref', 8.0), ('src', 0.125), ('src', 2.0 ** -14), ('ref', 2.0 ** -12), ('src', 2.0 ** 10)][:run.scale(6, 6)]:
             p2 = fz.make_pair(run.work, g, rng, src=pair['src'] * (fac if which == 'src' else 1),
                               ref=pair['ref'] * (fac if which == 'ref' else 1), smask=sm, tag='s')
             sc = fz.fuse(p2['src_fn'], p2['ref_fn'], run.work / 'scaled.tif', **kw)
@@ -81,7 +85,7 @@ def body(run):
                                   expected='corrected x %g, masks and R2 identical' % kc, observed=problems,
                                   signature=dict(kind='scale', which=which, parts=sorted(problems)))
     run.cov['evaluations'] += ncorr
-    run.cov['rule'] = ('paired real fusions (base, source x4, source /8, reference x8) over seeded geometries, 3 models, kernels incl. h != w, '
+    run.cov['rule'] = ('paired real fusions (base, source x4, /8, x2^-14, x2^10, reference x8, x2^-12) over seeded geometries, 3 models, kernels incl. h != w, '
                        'in-paint thresholds, 3 processing grids, 1..9 blocks, compared bit for bit; plus the kernel correspondence on scaled '
                        'blocks; every paired run is non-trivial; distinct = distinct (geometry, model, factor)')
     run.extra['input_distribution'] = dict(pairs=dist, kernel_corr_cases=ncorr, kernel_corr_nontrivial=nt)
